@@ -156,13 +156,27 @@ def observe_replace(structure, search, replace, seed, _positional=False, **kwarg
         out["exception"] = e
     log = events.LOG[n0:]
     finds = [e for e in log if e["ev"] == "find.ret"]
+    out["search_observed"] = bool(finds)
+    if not finds and not [e for e in log if e["ev"] in ("find.call", "find.raise")]:
+        # the replacement did not go through the public search function (it may use a helper of its own): the matches it worked on
+        # are then taken from the public search run on the same inputs from the same state of the random generators
+        n1 = len(events.LOG)
+        try:
+            events.seed_all(seed)
+            mofun.find_pattern_in_structure(structure, search, atol=kwargs.get("atol", 5e-2), axisp1_idx=kwargs.get("axisp1_idx"), axisp2_idx=kwargs.get("axisp2_idx"),
+                                            opoint_idx=kwargs.get("opoint_idx"), return_positions_and_quats=True)
+            finds = [e for e in events.LOG[n1:] if e["ev"] == "find.ret"]
+        except Exception:
+            finds = []
+        finally:
+            del events.LOG[n1:]
     out["found"] = finds[-1]["matches"] if finds else None
     out["found_positions"] = finds[-1]["positions"] if finds else None
     out["quats"] = finds[-1]["quats"] if finds else None
     out["search_positions_seen_by_find"] = finds[-1]["pattern_positions"] if finds else None
     # the options the caller gave, and the ones the search made on his behalf actually ran with
-    out["plumbing"] = []
-    if finds:
+    out["plumbing"] = [] if out["search_observed"] else None
+    if finds and out["search_observed"]:
         want_atol = kwargs.get("atol", 5e-2)
         want_hints = tuple(kwargs.get(k) for k in ("axisp1_idx", "axisp2_idx", "opoint_idx"))
         if finds[-1]["atol"] is None or abs(float(finds[-1]["atol"]) - float(want_atol)) > 1e-15:
